@@ -219,6 +219,20 @@ pub fn run() -> i32 {
             }
         }
         for mac in 0..=4u8 {
+            for len in 1..=4u8 {
+                for err_pos in 0..len {
+                    for bits in 0..(1u8 << len) {
+                        crate::sym::load(vec![vec![mac], vec![len], vec![err_pos], vec![bits]]);
+                        n += 1;
+                        if std::panic::catch_unwind(|| crate::node::c10_error_element()).is_err() {
+                            c11_bad += 1;
+                            eprintln!("SELFTEST-FAIL: c10_error_element: macro={} n={} failing={} bits={}", mac, len, err_pos, bits);
+                        }
+                    }
+                }
+            }
+        }
+        for mac in 0..=4u8 {
             for pred in 0..2u8 {
                 for recv in 0..=4u8 {
                     crate::sym::load(vec![vec![mac], vec![pred], vec![recv]]);
